@@ -1176,6 +1176,21 @@ func (sk *SpaceKeeper) ConfigureByPath(paths []string, sizes []int, execPlot, ex
 		return wsiList, nil
 	}
 
+	// check every path before creating anything, so that a request which has to be
+	// rejected does not leave new plot files (and consumed wallet keys) behind
+	for i := range absDirs {
+		_, currentSize, finished := fillSpaceListByPathSize(absDirs[i], make([]*WorkSpace, 0), sk.getIndexedWorkSpaces(), 0, sizes[i])
+		if finished {
+			continue
+		}
+		if !sk.allowGenerateNewSpace {
+			return failureReturn(ErrWorkSpaceCannotGenerate)
+		}
+		if err := checkOSDiskSizeByPath(absDirs[i], sizes[i]-currentSize); err != nil {
+			return failureReturn(err)
+		}
+	}
+
 	for i := range absDirs {
 		var currentSize, targetSize = 0, sizes[i]
 		var finished bool
